@@ -199,11 +199,11 @@ class Ctx:
         v.matched = int(m.group(1)) if m else max(0, (r.depth or 1) - 1)
         if r.rc == 0 and "No error has been found" in r.out:
             v.accepted = True
-        elif re.search(r"Postcondition TraceAccepted .* is false", r.out):
-            v.accepted = False
         elif re.search(r"Invariant (\S+) is violated", r.out) or re.search(r"Action property (\S+) is violated", r.out):
             v.accepted = False
             v.violated = r.violated
+        elif re.search(r"Postcondition TraceAccepted .* is false", r.out):
+            v.accepted = False
         else:
             dump = self.save("infra-%s.txt" % os.path.basename(trace_path), r.out)
             errs = [x for x in r.out.splitlines() if "rror" in x or "xception" in x][:6]
